@@ -10,6 +10,10 @@
      SFX n            src.Fetch(n) returned an error          (proxy fetch of a manifest, or doCopyNode's fetch)
      PuX n ref stored dst.Push / PushReference(n) returned an error; stored = the content was
                       stored before the error was returned (fault AFTER the side effect)
+     MtX n stored     dst.Mount(n) (registry.Mounter, one candidate repository) returned an error, either
+                      right away / after the blob was mounted, or after the fallback upload; stored as
+                      for PuX.  A failing MountFrom / OnMounted callback is [Ev (CbFail ..)], a failing
+                      PreCopy or src.Fetch inside Mount's getContent is [Ev (CbFail CPre n)] / [SFX n]
      TagX n set       dst.Tag(root) returned an error (Copy into a Tagger); set = the reference was
                       set before the error was returned
      ProOk / ProX     an operation of the sequential prologue returned / failed: Resolve, MapRoot
@@ -49,6 +53,7 @@ Inductive fevent :=
 | SFX (n : node)
 | PuX (n : node) (ref stored : bool)
 | TagX (n : node) (set : bool)
+| MtX (n : node) (stored : bool)
 | ProOk
 | ProX
 | Cancel.
@@ -127,7 +132,7 @@ Definition fstep (g : graph) (c : cfg) (ext : bool) (fs : fstate) (fe : fevent) 
         end
     | SFX n =>
         match ph st n with
-        | MF1 | F1 _ => Some (with_base fs (set_ph st n Dead))
+        | MF1 | F1 _ | MtF1 => Some (with_base fs (set_ph st n Dead))
         | _ => None
         end
     | PuX n ref stored =>
@@ -146,6 +151,13 @@ Definition fstep (g : graph) (c : cfg) (ext : bool) (fs : fstate) (fe : fevent) 
         | TagP1 _ =>
             Some (with_base fs (mkState (upd (ph st) n Dead) (dst st) (cached st)
                                         (if set then Some n else tag st) (returned st)))
+        | _ => None
+        end
+    | MtX n stored =>
+        match ph st n with
+        | Mounting | MtC =>
+            let d' := if stored && negb (has g (dst st) n) then n :: dst st else dst st in
+            Some (with_base fs (mkState (upd (ph st) n Dead) d' (cached st) (tag st) (returned st)))
         | _ => None
         end
     | ProOk => if f_started fs then None else Some fs
@@ -171,7 +183,7 @@ Definition faccepts (g : graph) (c : cfg) (ext : bool) (d0 : list node) (tr : li
 (* the events the property calls faults *)
 Definition is_fault (fe : fevent) : bool :=
   match fe with
-  | Ev (CbFail _ _) | ExX _ | SFX _ | PuX _ _ _ | TagX _ _ | ProX | Cancel => true
+  | Ev (CbFail _ _) | ExX _ | SFX _ | PuX _ _ _ | TagX _ _ | MtX _ _ | ProX | Cancel => true
   | _ => false
   end.
 
